@@ -33,6 +33,9 @@ pub struct BankInfo {
     /// current "true" UI price in micro-dollars (oracle publisher's random walk state)
     pub price_micro: u64,
     pub group_index: usize,
+    /// staked-collateral bank: (spl-single-pool stake pool, its native stake account); the LST
+    /// mint is `keys.mint` and `oracle_key` is the group's SOL feed
+    pub staked: Option<(Pubkey, Pubkey)>,
 }
 
 #[derive(Clone, Debug)]
@@ -83,6 +86,8 @@ pub struct WorldCfg {
     pub emode: bool,
     pub init_limit_caps: bool,
     pub flat_sol_fees: bool,
+    /// staked-collateral settings and one or two permissionlessly added LST banks per group
+    pub staked: bool,
 }
 
 impl WorldCfg {
@@ -103,6 +108,7 @@ impl WorldCfg {
             emode: rng.chance(1, 3),
             init_limit_caps: rng.chance(1, 4),
             flat_sol_fees: rng.chance(1, 2),
+            staked: rng.chance(1, 3),
         }
     }
 }
@@ -481,6 +487,10 @@ impl Genesis {
                 let b = Self::add_bank(sim, rng, cfg, &world, group, gi, &admins)?;
                 banks.push(b);
             }
+            if cfg.staked {
+                let more = Self::add_staked_banks(sim, rng, cfg, &world, group, gi, &admins)?;
+                banks.extend(more);
+            }
             // e-mode tables (swarm option): tags on some banks, entries on some (possibly other)
             // banks, valid against each bank's own liability weights and the default caps
             if cfg.emode {
@@ -711,7 +721,98 @@ impl Genesis {
             expo,
             price_micro,
             group_index: gi,
+            staked: None,
         })
+    }
+
+    /// Staked-collateral settings for the group plus one or two LST banks added through the
+    /// permissionless path (real instruction; the spl-single-pool accounts are fixtures).
+    #[allow(clippy::too_many_arguments)]
+    pub fn add_staked_banks(
+        sim: &mut Sim,
+        rng: &mut Rng,
+        cfg: &WorldCfg,
+        world: &World,
+        group: Pubkey,
+        gi: usize,
+        admins: &GroupAdmins,
+    ) -> Result<Vec<BankInfo>, String> {
+        let sol_feed = rng.pubkey();
+        let feed_id = rng.pubkey().to_bytes();
+        let expo = -8;
+        let sol_micro = rng.range(20_000_000, 300_000_000);
+        sim.apply(Event::SetAccount {
+            key: sol_feed,
+            account: Some(fixtures::pyth_account(feed_id, &pyth_from_micro(sol_micro, expo, 10, 0, GENESIS_TIME))),
+            why: "genesis",
+        });
+        let a_i = *rng.pick(&[0.5f64, 0.65, 0.8, 0.9, 1.0]);
+        let a_m = f64::min(a_i + *rng.pick(&[0.0f64, 0.05, 0.1]), 1.0);
+        let unit = 1_000_000_000u64;
+        let settings = marginfi::instructions::StakedSettingsConfig {
+            oracle: sol_feed,
+            asset_weight_init: w(a_i),
+            asset_weight_maint: w(a_m),
+            deposit_limit: if cfg.tight_limits && rng.chance(1, 2) { unit * rng.range(1, 100_000) } else { u64::MAX / 4 },
+            total_asset_value_init_limit: if cfg.init_limit_caps && rng.chance(1, 2) { rng.range(1, 100_000) } else { 0 },
+            oracle_max_age: rng.range(10, 600) as u16,
+            risk_tier: RiskTier::Collateral,
+        };
+        let out = sim
+            .apply(Event::Tx(Tx::one("genesis", ix::init_staked_settings(group, admins.admin, world.payer, settings))))
+            .unwrap();
+        if let Err(e) = out.result {
+            return Err(format!("genesis init_staked_settings failed: {e:?}"));
+        }
+        let mut v = Vec::new();
+        for _ in 0..(if rng.chance(1, 3) { 2 } else { 1 }) {
+            let stake_pool = rng.pubkey();
+            let mint = ix::single_pool_mint_pda(&stake_pool);
+            let sol_pool = ix::single_pool_stake_pda(&stake_pool);
+            // exchange rate (stake - 1 SOL) / supply between 1.0 and 1.3, any magnitude of pool
+            let supply = match cfg.magnitude {
+                0 => rng.range(1_000_000, 1_000_000_000_000),
+                1 => unit.saturating_mul(rng.range(100, 10_000_000)),
+                _ => rng.range(1_000_000_000_000_000, 1_000_000_000_000_000_000),
+            };
+            let stake = ((supply as u128 * rng.range(1000, 1300) as u128 / 1000) as u64).saturating_add(unit);
+            sim.apply(Event::SetAccount {
+                key: stake_pool,
+                account: Some(Account::new(10_000_000, vec![1u8; 8], marginfi::constants::SPL_SINGLE_POOL_ID)),
+                why: "genesis",
+            });
+            sim.apply(Event::SetAccount {
+                key: mint,
+                account: Some(fixtures::mint_account(TokenKind::Spl, 9, supply)),
+                why: "genesis",
+            });
+            sim.apply(Event::SetAccount {
+                key: sol_pool,
+                account: Some(fixtures::stake_account(stake, 2)),
+                why: "genesis",
+            });
+            let seed = rng.below(4);
+            let bank = ix::bank_with_seed_pda(&group, &mint, seed);
+            let keys = BankKeys::new(group, bank, mint, crate::rt::spl_token_id());
+            let add = ix::add_bank_permissionless(&keys, world.payer, stake_pool, sol_pool, seed, sol_feed);
+            let out = sim.apply(Event::Tx(Tx::one("genesis", add))).unwrap();
+            if let Err(e) = out.result {
+                return Err(format!("genesis add_bank_permissionless failed: {e:?}"));
+            }
+            v.push(BankInfo {
+                keys,
+                kind: TokenKind::Spl,
+                decimals: 9,
+                oracle: OracleKind::Pyth,
+                oracle_key: sol_feed,
+                feed_id,
+                expo,
+                price_micro: sol_micro,
+                group_index: gi,
+                staked: Some((stake_pool, sol_pool)),
+            });
+        }
+        Ok(v)
     }
 }
 
